@@ -25,6 +25,8 @@ import Kap.Proofs.C13Image
 import Kap.Proofs.C13Mono
 import Kap.Proofs.C13LexAtoms
 import Kap.Proofs.C13Prog
+import Kap.Proofs.C13LexStr
+import Kap.Gen.C13Tick
 
 namespace Kap.Props.C13
 open Kap.C13 Kap.C13.Gen
@@ -228,6 +230,14 @@ theorem lexwf_ident (s : String) (h : identOK s) : LexWF (.id s) := by
 theorem lexwf_call (f : String) (h : identOK f) (args : List Expr) (ha : LexWFAll args) : LexWF (.call f args) := by
   simp only [LexWF]; exact ⟨identLexCall_of_ok f h, ha⟩
 
+/-- … for every reference whose name does not end in a backslash (no other name can be written) … -/
+theorem lexwf_ref (s : String) (h : endsWithBackslash s.toList = false) : LexWF (.lit (.ref s)) := by
+  simp only [LexWF]; exact atomLex_ref s h
+
+/-- … and for every single-quoted string whose content does not end in a backslash -/
+theorem lexwf_str (l : String) (h : endsWithBackslash l.toList = false) : LexWF (.lit (.str l false)) := by
+  simp only [LexWF]; exact atomLex_str l h
+
 theorem identOK_a : identOK "a" := ⟨'a', [], by decide, by decide, by simp, by decide⟩
 theorem identOK_b : identOK "b" := ⟨'b', [], by decide, by decide, by simp, by decide⟩
 theorem identOK_f : identOK "f" := ⟨'f', [], by decide, by decide, by simp, by decide⟩
@@ -273,6 +283,14 @@ example : progWF [
       { op := .at, name := "u", args := some [] },
       { op := .dot, name := "flag", args := none }])] = true := by decide
 
+/-! ## pipeline → TICKscript: the builder tables regenerated from pipeline/tick/*.go -/
+
+/-- the extractor recognised every builder call (fail closed) -/
+theorem tick_no_unknown : Gen.tickUnknown = [] := by decide
+
+/-- one builder per node kind: the property order of a node kind is well defined -/
+theorem tick_nodes_distinct : (Gen.tickTable.map (·.1)).Nodup := by decide
+
 /-! ## Fuel -/
 
 /-- the fixed fuel of `parseTokens` (2·tokens + 4) always suffices: the model parser is total -/
@@ -293,10 +311,9 @@ theorem parse_format_parse (ts : List Tok) (e : Expr) (h : parseTokens ts = .ok 
 /-! ## Stated, not proved -/
 
 /-- what is still only tied by correspondence at the character level: (a) the per-token hypothesis `AtomLex` for
-numbers, durations, strings, references (discharged for booleans and identifiers; the scanner lemmas
-`string_scan_roundtrip`, `literal_unescape_escape` cover the string/reference bodies), regex and star operands
-(lexed differently depending on the preceding token); (b) decoding the raw tokens gives the decoded tokens of the
-tree with its literals normalised. -/
+numbers, durations and triple-quoted strings (discharged for booleans, identifiers, function names, references
+and single-quoted strings), regex and star operands (lexed differently depending on the preceding token);
+(b) decoding the raw tokens gives the decoded tokens of the tree with its literals normalised. -/
 def lexer_decodes_formatted_stmt : Prop :=
   ∀ e : Expr, ∀ s, fmtStr e = .ok s → (∀ w, parseLambda s ≠ .na w) →
     (lex s.toList).bind decodeAll = .ok (fmtToks (canonize e))
